@@ -1,6 +1,7 @@
 package sym
 
 // Intrinsics needed by the reverse-proxy harnesses (C07/C08).
+// (rand.New(rand.NewSource(..)).Int31() of BalanceGslb.randomSelectExclude is modelled in intrinsics_balance.go.)
 
 import (
 	"golang.org/x/tools/go/ssa"
@@ -12,17 +13,5 @@ func init() {
 	// default error branch does) is fine, any real use of it ends the path as unsupported.
 	intrinsics["reflect.TypeOf"] = func(m *Machine, fn *ssa.Function, a []value) value {
 		return poison{"result of reflect.TypeOf (reflection is not interpreted)"}
-	}
-
-	// math/rand's additive lagged Fibonacci source (rand.New(rand.NewSource(seed))): seeding runs ~1800
-	// iterations of a multiplicative congruential generator, which on a symbolic seed (time.Now) builds
-	// enormous terms. The source is over-approximated instead: Seed does nothing and every Uint64 is a
-	// fresh unconstrained 64-bit value; Int63/Int31/Intn/... are computed from it by the real library code.
-	intrinsics["(*math/rand.rngSource).Seed"] = func(m *Machine, fn *ssa.Function, a []value) value {
-		m.stats.Assumes["math/rand source: every draw is an arbitrary 64-bit value (seed ignored)"]++
-		return nil
-	}
-	intrinsics["(*math/rand.rngSource).Uint64"] = func(m *Machine, fn *ssa.Function, a []value) value {
-		return m.fresh("rand", 64)
 	}
 }
